@@ -274,6 +274,10 @@ func c03R6(r *Report) {
 		// the "last element" idiom on a value that may be empty is the commonest way for
 		// input to raise a run-time panic here (host names, header values)
 		lastIndexRule(r, "", "mitm", "proxyutil")
+		// the other one is a field the standard library documents as nil in ordinary
+		// operation (net.OpError.Addr, Request.TLS, URL.User ...) dereferenced untested;
+		// the pinned tree has no such dereference, the self-test keeps a positive example
+		nilableFieldRule(r, "", "mitm", "proxyutil", "header", "httpspec", "har", "martianlog", "marbl")
 		// no recover exists, which is why the rule matters; note if one appears
 		for _, f := range fs {
 			for _, c := range calls(f, "builtin.recover") {
